@@ -290,6 +290,27 @@ func runL1(m *mp.Model, r *rng.R, n int, out *res.Result) error {
 		if bad != "" {
 			out.Add(res.Finding{Kind: "corr", Op: "corr:matrix:" + op, Input: key, Impl: fmt.Sprint(got, gotScalars, gotErr), Model: ans.String(), Reason: bad})
 		}
+		// judge on the implementation alone (independent of the regenerated model): the result of a
+		// composing operation maps points like the sequential application of its factors — the
+		// defining statement of mul_apply / skew_eq / rotate_eq / translate_eq / scale_eq / leftmul / rightmul
+		if seq := l1Factors(op, t, u, v, x, y, ang, ang2); seq != nil {
+			for _, pt := range [][2]float64{{0, 0}, {1, 0}, {0, 1}, {3, -2}} {
+				wx, wy := pt[0], pt[1]
+				mag := 1.0
+				for k := len(seq) - 1; k >= 0; k-- {
+					f := seq[k]
+					wx, wy = f[0]*wx+f[2]*wy+f[4], f[1]*wx+f[3]*wy+f[5]
+					mag = math.Max(mag, math.Max(math.Abs(wx), math.Abs(wy)))
+				}
+				g := arr(got)
+				gx, gy := g[0]*pt[0]+g[2]*pt[1]+g[4], g[1]*pt[0]+g[3]*pt[1]+g[5]
+				if math.Abs(gx-wx) > tol*64*mag || math.Abs(gy-wy) > tol*64*mag || math.IsNaN(gx) || math.IsNaN(gy) {
+					out.Add(res.Finding{Kind: "judge", Op: "judge:compose-apply:" + op, Input: key, Impl: fmt.Sprint(got),
+						Reason: fmt.Sprintf("the result maps (%v,%v) to (%v,%v) but applying the factors one after the other gives (%v,%v) (theorems mul_apply and the in-place *_eq facts)", pt[0], pt[1], gx, gy, wx, wy)})
+					break
+				}
+			}
+		}
 		// judge for Invert on the implementation alone: T·T⁻¹ ≈ I whenever det is comfortably non-zero
 		if op == "invert" && !gotErr {
 			p := matrix.Mul(t, got)
@@ -297,6 +318,33 @@ func runL1(m *mp.Model, r *rng.R, n int, out *res.Result) error {
 				out.Add(res.Finding{Kind: "judge", Op: "judge:invert-two-sided", Input: key, Impl: fmt.Sprint(got), Reason: fmt.Sprintf("T*Invert(T) = %v", p)})
 			}
 		}
+	}
+	return nil
+}
+
+// l1Factors lists, leftmost (applied last) first, the factors whose composition an L1 operation must
+// return; the elementary factors are written from their definitions (CSS Transforms / SVG), with the
+// implementation's own float32 trigonometric values.
+func l1Factors(op string, t, u, v matrix.Transform, x, y, ang, ang2 fl) [][6]float64 {
+	tf := func(m matrix.Transform) [6]float64 { return arr(m) }
+	switch op {
+	case "mul", "rightmul":
+		return [][6]float64{tf(t), tf(u)}
+	case "leftmul":
+		return [][6]float64{tf(u), tf(t)}
+	case "mul3":
+		return [][6]float64{tf(t), tf(u), tf(v)}
+	case "translate":
+		return [][6]float64{tf(t), {1, 0, 0, 1, float64(x), float64(y)}}
+	case "scale":
+		return [][6]float64{tf(t), {float64(x), 0, 0, float64(y), 0, 0}}
+	case "rotate":
+		c, s, _ := implTrig(ang)
+		return [][6]float64{tf(t), {c, s, -s, c, 0, 0}}
+	case "skew":
+		_, _, tx := implTrig(ang)
+		_, _, ty := implTrig(ang2)
+		return [][6]float64{tf(t), {1, ty, tx, 1, 0, 0}}
 	}
 	return nil
 }
